@@ -361,10 +361,11 @@ func (s *ScopedKeyManager) keyToManaged(derivedKey *hdkeychain.ExtendedKey,
 		return nil, err
 	}
 
-	if !derivedKey.IsPrivate() {
+	if !derivedKey.IsPrivate() && len(acctInfo.acctKeyEncrypted) > 0 {
 		// Add the managed address to the list of addresses that need
 		// their private keys derived when the address manager is next
-		// unlocked.
+		// unlocked. Accounts without a private key (watch-only accounts)
+		// have nothing to derive.
 		info := unlockDeriveInfo{
 			managedAddr: ma,
 			branch:      derivationPath.Branch,
